@@ -28,6 +28,8 @@ def drive_(a, rng):
     scale = 2.0 ** 40 if kind == "big" else 1.0
     tmap = gen.CMap(rng.choice(["id", "third", "big"]), offset=rng.choice([0, 0, 3.5]))
     tables = gen.build_tables(dict(a, sites=[], muts=[]), cmap, tmap)
+    if rng.random() < 0.5:
+        gen.add_user_flags(tables, rng)
     # scale knob: sometimes the same genealogy is placed after a block of isolated non-sample nodes, so that all
     # node ids are large (pair keys a*N+b beyond 32 bits); results are shifted back before they are recorded
     off = rng.choice([0, 0, 0, 0, 0, 50000, 70001]) if not a.get("_nopad") else 0
@@ -42,7 +44,7 @@ def drive_(a, rng):
     N = ts.num_nodes - off
     case = dict(ts=dict(L=a["L"], time=[2 * t for t in a["time"]], flags=a["flags"], edges=a["edges"]))
     if rng.random() < 0.6 or N < 3:
-        within = rng.sample(range(N), rng.randint(2, min(5, N))) if rng.random() < 0.85 else None
+        within = rng.sample(range(N), rng.randint(2, min(5, N))) if rng.random() < 0.7 else None
         case["mode"] = "within"
         case["within"] = within if within is not None else [int(u) - off for u in ts.samples()]
         case["between"] = []
